@@ -109,7 +109,7 @@ def harvested_words(rel='integrations/pygments_lexer.py'):
     import re
     out = set()
     try:
-        root = os.environ.get('DEVRUN_TREE') or lib.REPO      # DEVRUN_TREE: development triage of a scratch worktree only
+        root = getattr(lib, 'DEV_TREE', None) or lib.REPO     # lib.DEV_TREE is set by harness/devrun.py only (development triage)
         tree = ast.parse(open(os.path.join(root, 'python', 'pydiffx', rel), encoding='utf-8').read())
     except Exception:
         tree = None
